@@ -158,4 +158,34 @@ theorem data_command_depends_on_own_db (c : Ctx) (s s' : State) (conn ref : Nat)
     | exact ⟨rfl, hdb⟩
     | split)
 
+/-! ### SELECT inside a transaction (D25) -/
+
+/-- the transaction `MULTI / SELECT 1 / SET k v / EXEC` of connection 1, then `GET k` by connection 2,
+    which stays in database 0 -/
+def selectInMulti (q : Quirks) : Out :=
+  let c : Ctx := { q := q, now := 0 }
+  let s0 := (State.init.connect 1 1).connect 2 2
+  let s1 := (dispatch c s0 1 [sb "MULTI"]).st
+  let s2 := (dispatch c s1 1 [sb "SELECT", sb "1"]).st
+  let s3 := (dispatch c s2 1 [sb "SET", sb "k", sb "v"]).st
+  let s4 := (dispatch c s3 1 [sb "EXEC"]).st
+  dispatch c s4 2 [sb "GET", sb "k"]
+
+/-- as the property asks: the SET runs in the database the transaction has selected by then, so a
+    connection in database 0 does not see the key -/
+theorem select_in_multi_binds_following_commands : (selectInMulti Quirks.none).reply.isNil = true := by
+  decide +kernel
+
+/-- D25 (known finding, the tree as it is): the SET was bound to database 0 when it was queued and
+    writes there although the connection has selected database 1 by the time it runs -/
+theorem select_in_multi_witness :
+    (selectInMulti { Quirks.none with multiBindsAtQueue := true }).reply.bulk? = some (sb "v") := by
+  decide +kernel
+
+/-- for every transaction, with the quirk off: each queued command runs on the database its connection
+    has selected at that moment (`Queued.ref` is the current selection, whatever was recorded) -/
+theorem queued_ref_is_current_selection (x : Queued) (q : Quirks) (cur : Nat) (h : q.multiBindsAtQueue = false) :
+    x.ref q cur = cur := by
+  simp [Queued.ref, h]
+
 end RedisEmu
